@@ -599,7 +599,7 @@ func c06SlotsBusy(r *vlib.Run) {
 // readable at once (MaxConcurrentCats 400), one of them slow to read (long lines): the queue is full while the
 // aggregator rotates from a momentarily empty file to the next. Every line must be counted and the run must end.
 func c06ManyFiles(r *vlib.Run) {
-	fl, err := startFleet(r, "c06many", 1, map[string]interface{}{"MaxConcurrentCats": 400, "MaxConnections": 50}, nil, "error")
+	fl, err := startFleet(r, "c06many", 1, map[string]interface{}{"MaxConcurrentCats": 400, "MaxConnections": 50}, []string{"VERIF_TRACE=trace.jsonl"}, "error")
 	if err != nil {
 		r.Inconclusive("fleet-start")
 		return
@@ -630,11 +630,17 @@ func c06ManyFiles(r *vlib.Run) {
 		args := append(fl.ClientArgs(), "--logger", "stdout", "--logLevel", "error", "--noColor", "--files", filepath.Join(dir, "*.log"), "--query", query)
 		start := time.Now()
 		// (client and server are both idle most of the time - the aggregator pauses 100 ms at every switch of file, 231
-		// files take 23 s of pauses -, so progress is read from what the run produces: the interim result in the outfile
-		// (interval 2) must keep changing; a run whose interim result stands still while everything is idle is hung)
+		// files take 23 s of pauses -, so progress is read from what the run does: the server's hook trace grows with every
+		// file the aggregator takes or finishes, the interim result in the outfile changes; a run in which neither
+		// moves while everything is idle is hung)
+		tracePath := filepath.Join(fl.Servers[0].Spec.Dir, "trace.jsonl")
 		progress := func() int64 {
 			b, _ := os.ReadFile(out)
-			return int64(crc32.ChecksumIEEE(b)) + int64(len(b))<<32
+			var sz int64
+			if st, err := os.Stat(tracePath); err == nil {
+				sz = st.Size()
+			}
+			return int64(crc32.ChecksumIEEE(b)) + sz<<20
 		}
 		res := vlib.RunCmd(vlib.Cmd{Path: r.Bin("dmap"), Args: args, Env: fl.ClientEnv(), Dir: fl.Home, Watchdog: 300 * time.Second, Busy: vlib.PidsBusy(fl.Servers[0].D.Pid()), OutProgress: progress})
 		r.Eval(fmt.Sprintf("many-files|%d", nSmall+1))
